@@ -98,6 +98,7 @@ class FnContract:
     ghost_params: Dict[str, str] = field(default_factory=dict)
     assumed_ensures: List[Clause] = field(default_factory=list)
     ghost_on_raise: Dict[str, List[str]] = field(default_factory=dict)
+    model_opts: Dict[str, Any] = field(default_factory=dict)
 
 
 class Registry:
@@ -166,6 +167,7 @@ class Registry:
         assumed_ensures: Optional[List[ClauseSrc]] = None,
         ghost_on_raise: Optional[Dict[str, List[str]]] = None,
         inline: bool = False,
+        model_opts: Optional[Dict[str, Any]] = None,
     ) -> FnContract:
         short = qualname.split(":")[1]
         rc: Dict[str, List[Clause]] = {}
@@ -201,6 +203,7 @@ class Registry:
             assumed_ensures=mk_clauses(f"{short}.assumed-post", assumed_ensures, props),
             ghost_on_raise=dict(ghost_on_raise or {}),
             inline=inline,
+            model_opts=dict(model_opts or {}),
         )
         for lo in f.loops.values():
             lo["invariant"] = mk_clauses(f"{short}.loopinv", lo.get("invariant"), props)
